@@ -28,6 +28,17 @@ func (v *Vue) evalTemplate(ctx VueContext, nodes []*html.Node, componentData map
 
 		// Check for include attribute - handle inclusion first
 		if helpers.HasAttr(node, "include") {
+			// A bound prop (:item="x") passes the value of its expression on as it is:
+			// a string stays a string, also when it happens to look like JSON
+			bound := map[string]bool{}
+			for _, attr := range node.Attr {
+				if name, ok := strings.CutPrefix(attr.Key, "v-bind:"); ok {
+					bound[name] = true
+				} else if name, ok := strings.CutPrefix(attr.Key, ":"); ok {
+					bound[name] = true
+				}
+			}
+
 			vars, err := v.evalAttributes(ctx, node)
 			if err != nil {
 				return nil, err
@@ -37,6 +48,9 @@ func (v *Vue) evalTemplate(ctx VueContext, nodes []*html.Node, componentData map
 
 			// auto decode params as json, e.g. `data="{...}"` or `[...]`
 			for k, v := range vars {
+				if bound[k] {
+					continue
+				}
 				if vs, ok := v.(string); ok {
 					if strings.HasPrefix(vs, "{") || strings.HasPrefix(vs, "[") {
 						var out any
